@@ -59,3 +59,51 @@ class P(vlib.Prop):
         "request bodies are 8-byte little-endian ids (the marshalled form of real requests is C08's business)",
         "pq_at_least_once: every request fits into the empty queue (sizeof <= capacity), the drain incarnations do not die",
     ]
+
+    # ---- part C: the property's clauses evaluated by a decidable checker (C01/Checker.v, proved sound in Proofs8.v)
+    # over the OBSERVED behaviour of the implementation, on every observed history: an oracle that does not trust
+    # the model's step functions, and the failing-input search when model and implementation disagree.
+    CLAUSES = {1: "observed-history-violates-clause-1-accepted-but-never-handed-off",
+               2: "observed-history-violates-clause-2-not-durable-and-not-final",
+               9: "observed-store-bytes-do-not-decode"}
+
+    def extra_checks(self, ctx):
+        idx = [i for i, c in enumerate(ctx.cases) if c["term"].startswith("CHist")]
+        if not idx:
+            return
+        terms = [ctx.cases[i]["term"] for i in idx]
+        failed = vlib.coq_eval_cases(ctx, self.harness_module, "prop_ok", self.case_type, terms, shard=self.shard)
+        ctx.extra_coverage["observed_clause_checker"] = {"histories_checked": len(terms), "violations": len(failed)}
+        mism = {m["term"] for m in ctx.mismatches}
+        for k in failed[:20]:
+            t = terms[k]
+            v = vlib.coq_eval_term(ctx, self.harness_module, "prop_verdict (%s)" % t) if len(t) < 60000 else "?"
+            code = None
+            for n in (1, 2, 9):
+                if ("= %d" % n) in v:
+                    code = n
+            kind = self.CLAUSES.get(code, "observed-history-violates-a-clause")
+            ctx.oracle.append({"kind": kind, "term": t, "harness": ctx.cases[idx[k]]["harness"],
+                               "detail": "clause checker on the observed history: verdict %s%s" % (
+                                   v[:80], " (model and implementation also disagree on this history)" if t in mism else "")})
+        self.translated_divergence(ctx)
+
+    def translated_divergence(self, ctx):
+        """When the obligation over the translated decoder breaks: look for an argument of its finite class domain on which
+        the generated and the hand-written definition differ (reported in the replay of the broken obligation)."""
+        if not any("Translated.v" in w or "Translated.v" in d for w, d in ctx.broken):
+            return
+        reps = {"nil": "None", "empty": "(Some [])", "4 bytes": "(Some [1;2;3;4]%N)", "7 bytes": "(Some [1;2;3;4;5;6;7]%N)",
+                "8 bytes": "(Some [1;2;3;4;5;6;7;8]%N)", "12 bytes": "(Some [1;2;3;4;5;6;7;8;9;10;11;12]%N)"}
+        out = []
+        try:
+            vlib.coq_make(ctx, ["C01/TranslatedDefs.vo"])
+        except vlib.Broken:
+            return
+        for name, buf in reps.items():
+            v = vlib.coq_eval_term(ctx, "C01.TranslatedDefs", "decoder_agrees %s" % buf)
+            if "false" in v:
+                out.append(name)
+        if out:
+            ctx.broken.append(("translated bytesToItemIndex differs from the model on buffers: %s" % ", ".join(out),
+                               "the pq harness runs the real decoder on such buffers (CDec cases); a stored index of that shape only arises from corrupted storage, so no history of the property's script language reaches it"))
